@@ -435,6 +435,12 @@ def switchRingRef (res a : List W) : Outcome (List W) :=
   else
     .ok (scatterStep (nOut / nIn) (List.replicate nOut 0#64) a)
 
+/-- one strided store of the up path: `*p = x_i` at `res[i * gap_out]` -/
+def upStore (a : List W) (gap : Nat) (r : List W) (i : Nat) : List W :=
+  match a[i]? with
+  | some v => r.set (i * gap) v
+  | none => r
+
 /-- `znx_switch_ring_avx(res, a)` -/
 def switchRingAvx (res a : List W) : Outcome (List W) :=
   let nIn := a.length
@@ -456,9 +462,7 @@ def switchRingAvx (res a : List W) : Outcome (List W) :=
     let gap := nOut / nIn
     let idx := (List.range ((nIn + 3) / 4)).flatMap (fun j => [4 * j, 4 * j + 1, 4 * j + 2, 4 * j + 3])
     if idx.any (fun i => i ≥ nIn || i * gap ≥ nOut) then .panic "bounds"
-    else .ok (idx.foldl (fun r i => match a[i]? with
-      | some v => r.set (i * gap) v
-      | none => r) (List.replicate nOut 0#64))
+    else .ok (idx.foldl (upStore a gap) (List.replicate nOut 0#64))
 
 /-- `znx_automorphism_ref(p, res, a)`: scatter with a running index `k += p_2n (mod 2n)` -/
 def automorphismRef (p : Int) (res a : List W) : Outcome (List W) :=
